@@ -162,6 +162,13 @@ class ProjectResolver:
             trail = ["from-dots-import" if not module else "relative-import"]
         if base in self.modules:
             src = self.modules[base]
+            for (ln2, n2, ex2) in self.top_bindings(src):
+                if isinstance(ex2, tuple) and n2 != "*":
+                    orig2 = ex2[2] if ex2[0] == "from" else ex2[1].split(".")[-1]
+                    if orig2 == name and n2 != name:
+                        # lian matches re-exported symbols by their original name
+                        trail.append("reexported-under-alias")
+                        break
             if name in self.names_of(src) and (src, name) not in _stack:
                 t, tr = self.lookup(src, name, _stack)
                 if t is not None and t[0] == "unresolvable":
